@@ -138,7 +138,7 @@ def main():
             pr = ['panic or valid path rejected: ' + io]
         else:
             pr = oracle(p, script, f)
-        if pr and nviol < 10:
+        if pr and nviol < 300:
             nviol += 1
             R.violation({'kind': 'segment iteration / path queries disagree with the /-split of the text', 'family': fam, 'path': p.decode('utf-8', 'replace'),
                          'script(f=next,b=next_back)': script, 'problems': pr, 'implementation': io, 'model': mo,
